@@ -44,10 +44,30 @@ type setting struct {
 	Pattern  string `json:"pattern"`
 	N        int    `json:"n"`
 	DType    string `json:"dtype"` // "" | str | bytes
+	// Spellings: how the keyword is WRITTEN in the configuration file when it is not the canonical lower-case word
+	// (Envelope / Side / DType keep the meaning: the keyword lower-cased and trimmed). Empty = canonical spelling.
+	SideText     string `json:"side_text,omitempty"`
+	EnvelopeText string `json:"envelope_text,omitempty"`
+	DTypeText    string `json:"dtype_text,omitempty"`
 }
 
 func (s setting) key() string {
-	return fmt.Sprintf("%s|%s|%q|%d|%s", s.Envelope, s.Side, s.Pattern, s.N, s.DType)
+	return fmt.Sprintf("%s|%s|%q|%d|%s|%q|%q|%q", s.Envelope, s.Side, s.Pattern, s.N, s.DType, s.SideText, s.EnvelopeText, s.DTypeText)
+}
+
+// spelling describes the non-canonical keyword spellings of a setting ("" when all are canonical); part of signatures.
+func (s setting) spelling() string {
+	var out []string
+	if s.SideText != "" {
+		out = append(out, fmt.Sprintf("plaintext_side:%q", s.SideText))
+	}
+	if s.EnvelopeText != "" {
+		out = append(out, fmt.Sprintf("crypto_envelope:%q", s.EnvelopeText))
+	}
+	if s.DTypeText != "" {
+		out = append(out, fmt.Sprintf("data_type:%q", s.DTypeText))
+	}
+	return strings.Join(out, ",")
 }
 
 // spec is one case: a value written into a masked column and read back by three kinds of reader.
@@ -113,9 +133,19 @@ func schemaYAML(sets []setting) (string, map[string]string) {
 		name := fmt.Sprintf("m%d", len(cols))
 		cols[s.key()] = name
 		names = append(names, name)
-		fmt.Fprintf(&enc, "      - column: %s\n        crypto_envelope: %s\n        masking: %s\n        plaintext_length: %d\n        plaintext_side: %s\n", name, s.Envelope, yamlQuote(s.Pattern), s.N, s.Side)
-		if s.DType != "" {
-			fmt.Fprintf(&enc, "        data_type: %s\n", s.DType)
+		envelope, side, dtype := s.Envelope, s.Side, s.DType
+		if s.EnvelopeText != "" {
+			envelope = yamlQuote(s.EnvelopeText)
+		}
+		if s.SideText != "" {
+			side = yamlQuote(s.SideText)
+		}
+		if s.DTypeText != "" {
+			dtype = yamlQuote(s.DTypeText)
+		}
+		fmt.Fprintf(&enc, "      - column: %s\n        crypto_envelope: %s\n        masking: %s\n        plaintext_length: %d\n        plaintext_side: %s\n", name, envelope, yamlQuote(s.Pattern), s.N, side)
+		if dtype != "" {
+			fmt.Fprintf(&enc, "        data_type: %s\n", dtype)
 		}
 	}
 	// one searchable column so that the schema of the "with-search" deployment really has the search flag
